@@ -178,3 +178,9 @@ def gen_conflict_pair(rng, pool):
     g2 = gen_de_iban if (key in pool["de_ibans"] and rng.random() < 0.4) else gen_de_algo
     op_b, _, _ = g2(rng, pool, key, cls_not=cls_a)
     return (op_a, key), (op_b, key)
+
+
+def ops_has_ref(op) -> bool:
+    from .ops import refs_of
+
+    return bool(refs_of(op))
